@@ -92,9 +92,15 @@ def parseDItems (s : String) : Option (List DItem) :=
         | none => none) (some [])
 
 def stepC25 : List String → String
+  | ["disp", arbs, votes, via] =>
+      match parseList parseArb arbs, parseDItems votes with
+      | some arbs, some xs =>
+        if xs.isEmpty || !(via = "n" || via = "o" || via = "d") then "bad-op"
+        else " ".intercalate ((dispRunI (via != "d") arbs [] xs).map fmtDispI)
+      | _, _ => "bad-op"
   | ["disp", arbs, votes] =>
       match parseList parseArb arbs, parseDItems votes with
-      | some arbs, some xs => if xs.isEmpty then "bad-op" else " ".intercalate ((dispRunI arbs [] xs).map fmtDispI)
+      | some arbs, some xs => if xs.isEmpty then "bad-op" else " ".intercalate ((dispRunI false arbs [] xs).map fmtDispI)
       | _, _ => "bad-op"
   | "chain" :: era :: steps =>
       match parseCSteps steps with
